@@ -100,7 +100,7 @@ func newConcWorld1(kind string) *vConcWorld {
 		g.chal = base64.RawURLEncoding.EncodeToString(raw)
 	}
 	g.prim, _ = w.regate()
-	g.sched = &vSched{held: map[int]chan struct{}{}, events: make(chan vSchedEv, 16)}
+	g.sched = &vSched{held: map[int]chan struct{}{}, events: make(chan vSchedEv, 16), lateFor: 120 * time.Millisecond}
 	g.prim.mu.Lock()
 	g.prim.sched = g.sched
 	g.prim.mu.Unlock()
@@ -264,6 +264,12 @@ func (g *vConcWorld) runSchedule(ops []string, prefix []int) (results []string, 
 		g.prim.mu.Lock()
 		c := g.prim.count
 		g.prim.mu.Unlock()
+		s.mu.Lock()
+		if s.pending > 0 {
+			c = -2 - quiet // work left behind is still on its way: not quiet
+			last = -1
+		}
+		s.mu.Unlock()
 		if c == last {
 			quiet++
 		} else {
